@@ -2,6 +2,7 @@ import BSModel.Proofs.HeapOps
 import BSModel.Proofs.HeapExtract
 import BSModel.Proofs.HeapLink
 import BSModel.Proofs.HeapIter
+import BSModel.Proofs.HeapDecompose
 /-! # C01 — one consistent tree: every navigation view agrees after any edit history
 
 `Good h` says: there is a nested-set witness under which the children lists tile the parents' intervals and
@@ -47,6 +48,59 @@ theorem history_consistent_noDecompose :
       simp only [hs] at hr
       exact ih h1 h' (call_keeps_consistent hg (hok op (by simp)).1 (hok op (by simp)).2 hs)
         (fun o ho => hok o (by simp [ho])) hr
+
+/-- **every editing call, `decompose` included**, that returns, returns a consistent forest. For `decompose`
+    the model's guard excludes one state only: a BeautifulSoup object that has children and stands outside the
+    element chain (the state right after parsing), where the Python wipes the object alone and leaves its
+    children pointing at it. -/
+theorem every_call_keeps_consistent {h h' : Heap} {op : Op} (hg : Good2 h) (hk : op.kindsOK)
+    (hs : step h op = .ok h') : Good2 h' :=
+  (step_good2 hg hk hs).1
+
+/-- **every finite history of editing calls** — all fourteen of them, `decompose` included — keeps the forest
+    consistent -/
+theorem history_consistent :
+    ∀ (ops : List Op) (h h' : Heap), Good2 h → (∀ op ∈ ops, op.kindsOK) → run h ops = .ok h' → Good2 h' := by
+  intro ops
+  induction ops with
+  | nil => intro h h' hg _ hr; simp only [run] at hr; cases hr; exact hg
+  | cons op ops ih =>
+    intro h h' hg hok hr
+    simp only [run] at hr
+    cases hs : step h op with
+    | error e => simp only [hs] at hr; cases hr
+    | ok h1 =>
+      simp only [hs] at hr
+      exact ih h1 h' (every_call_keeps_consistent hg (hok op (by simp)) hs)
+        (fun o ho => hok o (by simp [ho])) hr
+
+/-- **`decompose` destroys exactly the subtree.** On a consistent forest, a `decompose()` that returns is the
+    `extract()` of the element (which never fails) followed by the wipe-out: afterwards every element of the
+    subtree of `x` — the elements of the pre-order walk of the children lists from `x` *before* the call — is
+    unlinked from everything (no parent, no siblings, no previous or next element, no children), and no other
+    element differs in a single link or in its children list from the state the `extract()` alone produces.
+    No element changes its class or its text, nothing is allocated, and the result is again consistent. -/
+theorem decompose_destroys_subtree {h h' : Heap} {x : Nat} (hg : Good h) (hd : decompose h x = .ok h') :
+    ∃ h1, extract h x = .ok h1 ∧ Good h1 ∧ Good h' ∧
+      (∀ m, m ∈ docOrder h x →
+        h'.parent m = none ∧ h'.ps m = none ∧ h'.ns m = none ∧ h'.pe m = none ∧ h'.ne m = none ∧
+        h'.kids m = []) ∧
+      (∀ m, m ∉ docOrder h x →
+        h'.parent m = h1.parent m ∧ h'.ps m = h1.ps m ∧ h'.ns m = h1.ns m ∧ h'.pe m = h1.pe m ∧
+        h'.ne m = h1.ne m ∧ h'.kids m = h1.kids m) ∧
+      h'.kind = h.kind ∧ h'.val = h.val ∧ h'.next = h.next := by
+  obtain ⟨w, hwf⟩ := hg
+  obtain ⟨h1, w1, he, hwf1, _, hkind, hval, hnext, hW, hmem⟩ := decompose_wiped hwf hd
+  refine ⟨h1, he, ⟨w1, hwf1⟩, ⟨_, wipe_wf hwf1 hW⟩, ?_, ?_, hW.kind.trans hkind, hW.val.trans hval,
+    hW.next.trans hnext⟩
+  · intro m hm
+    have hm := (hmem m).mpr hm
+    exact ⟨by rw [hW.parent m, if_pos hm], by rw [hW.ps m, if_pos hm], by rw [hW.ns m, if_pos hm],
+      by rw [hW.pe m, if_pos hm], by rw [hW.ne m, if_pos hm], by rw [hW.kids m, if_pos hm]⟩
+  · intro m hm
+    have hm : ¬ w1.tree m = x := fun hc => hm ((hmem m).mp hc)
+    exact ⟨by rw [hW.parent m, if_neg hm], by rw [hW.ps m, if_neg hm], by rw [hW.ns m, if_neg hm],
+      by rw [hW.pe m, if_neg hm], by rw [hW.ne m, if_neg hm], by rw [hW.kids m, if_neg hm]⟩
 
 /-- `extract` never fails on a consistent forest, and the element it returns is a self-contained tree:
     no parent, no siblings, no previous element, and its last element has no next element -/
@@ -148,5 +202,13 @@ theorem soup_root_caveat {h : Heap} (hg : Good h) (r : Nat) (hr : h.parent r = n
 example : (run (Heap.init [.soup, .tag, .tag, .str, .str])
     [.append 0 (.node 1), .append 1 (.node 3), .insert 0 0 [.node 2, .plain [9]], .wrap 3 2,
      .replaceWith 1 [.node 4, .node 3]]).isOk = true := by decide
+
+/-! non-vacuity for `decompose`: a history that destroys a two-level subtree in the middle of a document and
+    keeps editing; the guard of the model fires only for an unlinked BeautifulSoup object with children -/
+example : (run (Heap.init [.soup, .tag, .tag, .str, .str])
+    [.append 0 (.node 1), .append 1 (.node 2), .append 2 (.node 3), .append 0 (.node 4),
+     .decompose 1, .append 0 (.node 3)]).isOk = true := by decide
+example : ((decompose (Heap.init [.soup, .tag]) 0).toOption.map (fun h => (h.ne 0, h.kids 0))) = some (none, []) := by
+  decide
 
 end BS.Props.C01
